@@ -9,6 +9,7 @@ import MinizProof.Spec.Inflate
 import MinizProof.Model.DeflStream
 import MinizProof.Model.InflStream
 import MinizProof.Model.Core
+import MinizProof.Model.DeflOut
 namespace Driver
 open Spec
 
@@ -351,6 +352,63 @@ def opIfl (a : Acc) (ln : Nat) (l : Line) : Acc := Id.run do
 def ringFill (size seed : Nat) : Array UInt8 :=
   Array.ofFn (n := size) fun i => UInt8.ofNat ((i.val % 256) * 31 + seed)
 
+/-- `STG`: the `compress` calls of one schedule (buffer sink) with the `flush_block` events the
+    hooks recorded inside each, replayed through the staging model `Model.DeflOut.compressInner`:
+    per call the status, the bytes written, the number of engine blocks flushed, whether the
+    epilogue block ran, and after each block whether it went through `local_buf` and how many bytes
+    it left pending must agree. Block contents are irrelevant to staging: zeros of the recorded sizes. -/
+def opStg (a : Acc) (ln : Nat) (l : Line) : Acc := Id.run do
+  let calls := (l.get "calls").splitOn ";"
+  let mut a := a
+  let mut s : Model.DeflOut.Stage := {}
+  let mut idx := 0
+  for cs in calls do
+    let f := cs.splitOn ":"
+    if f.length < 5 then continue
+    let outLen := (f.getD 0 "").toNat?.getD 0
+    let flush := (f.getD 1 "").toNat?.getD 0
+    let st := (f.getD 2 "").toInt?.getD 0
+    let cout := (f.getD 3 "").toNat?.getD 0
+    let bl := f.getD 4 "-"
+    let evs : List (List Int) := if bl == "-" then [] else (bl.splitOn ",").map (fun t => (t.splitOn ".").map (·.toInt?.getD 0))
+    let body := evs.filter (fun e => e.getD 3 0 == 0)
+    let epi := evs.filter (fun e => e.getD 3 0 != 0)
+    let eng : Model.DeflOut.EngineCall :=
+      { blocks := body.map (fun e => List.replicate (e.getD 0 0).toNat 0),
+        drained := !epi.isEmpty,
+        finalBlk := List.replicate ((epi.getD 0 []).getD 0 0).toNat 0 }
+    let r := Model.DeflOut.compressInner s outLen flush eng
+    a := a.bump "stg_calls"
+    if r.status != st then
+      a := a.diff ln l "stg_status" s!"call {idx}: staging model status {r.status}, implementation {st}"
+      break
+    if r.delivered.length != cout then
+      a := a.diff ln l "stg_written" s!"call {idx}: staging model writes {r.delivered.length} bytes, implementation {cout}"
+      break
+    if r.status != Model.DeflOut.stBadParam then
+      if r.flushed != body.length then
+        a := a.diff ln l "stg_blocks" s!"call {idx}: staging model lets the engine flush {r.flushed} blocks, implementation flushed {body.length}"
+        break
+      if r.epilogue != !epi.isEmpty || epi.length > 1 then
+        a := a.diff ln l "stg_epilogue" s!"call {idx}: staging model epilogue block {r.epilogue}, implementation {epi.length} epilogue flush_block events (pending before: {s.pending.length})"
+        break
+      -- bytes left pending after the last block of the call, as flush_block reported it
+      match evs.getLast? with
+      | some e =>
+        -- flush_output's return value is flush_remaining right after the block was staged
+        let pendingAfterBlocks :=
+          if r.epilogue then
+            let d1 := (Model.DeflOut.stageBlocks outLen 0 eng.blocks)
+            (Model.DeflOut.flushOne outLen d1.1.length eng.finalBlk).2.length
+          else (Model.DeflOut.stageBlocks outLen 0 eng.blocks).2.1.length
+        if (pendingAfterBlocks : Int) != e.getD 2 0 then
+          a := a.diff ln l "stg_pending" s!"call {idx}: staging model leaves {pendingAfterBlocks} bytes pending after the last block, implementation {e.getD 2 0}"
+          break
+      | none => pure ()
+    s := r.stage
+    idx := idx + 1
+  return a
+
 /-- `INEW`: a fresh decoder object and its output buffer (filled with the harness's known pattern). -/
 def opInew (a : Acc) (l : Line) : Acc :=
   let id := l.nat "id"
@@ -412,6 +470,7 @@ def dispatch (a : Acc) (ln : Nat) (l : Line) : Acc :=
   | "BB" => opBb a ln l
   | "DFL" => opDfl a ln l
   | "IFL" => opIfl a ln l
+  | "STG" => opStg a ln l
   | "INEW" => opInew a l
   | "ICALL" => opIcall a ln l
   | "" => a
